@@ -263,6 +263,7 @@ def spellings(rng, W):
 
 
 def run(ctx):
+    _repo_tests(ctx)
     from dateutil import relativedelta as mod
     R, W = mod.relativedelta, mod.weekday
     sink = mon_rd.Sink(ctx)
@@ -303,6 +304,21 @@ def run(ctx):
             r = try_(lambda: R(**kw))
             if not (r[0] == 'exc' and isinstance(r[1], ValueError)):
                 ctx.violation('law-non-integer-rejected', {'kw': kw}, 'got %r' % (r[1],))
+        # ... whatever the numeric type
+        import decimal
+        import fractions
+        for kw in ({'months': fractions.Fraction(3, 2)}, {'years': fractions.Fraction(-7, 4)}, {'years': decimal.Decimal('1.75')},
+                   {'months': decimal.Decimal('0.5'), 'days': 2}, {'years': fractions.Fraction(1, 3), 'months': 1}):
+            ctx.ev()
+            ctx.count('law_non-integer-rejected')
+            ctx.distinct('non-integer|%s|%s' % (','.join(sorted(kw)), type(list(kw.values())[0]).__name__))
+            r = try_(lambda: R(**kw))
+            if not (r[0] == 'exc' and isinstance(r[1], ValueError)):
+                ctx.violation('law-non-integer-rejected', {'kw': {k: repr(v) for k, v in kw.items()}}, 'got %r' % (r[1],))
+        for kw in ({'years': fractions.Fraction(4, 2)}, {'months': decimal.Decimal('3')}):
+            r = try_(lambda: R(**kw))
+            if r[0] != 'ok' or (r[1].years, r[1].months) not in ((2, 0), (0, 3)):
+                ctx.violation('law-integral-value-accepted', {'kw': {k: repr(v) for k, v in kw.items()}}, 'got %r' % (r[1],))
         for kw in ({'years': 2.0}, {'months': -3.0}):
             r = try_(lambda: R(**kw))
             if r[0] != 'ok' or not isinstance(r[1].years, int) or not isinstance(r[1].months, int):
@@ -310,6 +326,13 @@ def run(ctx):
         ctx.note('invariant_hook', 'evaluated on every relativedelta constructed in this process (see counters.invariant_evaluations)')
     finally:
         inst.uninstall()
+
+
+def _repo_tests(ctx):
+    # thorough tier: the repository's own tests as one more workload under the same monitors
+    if ctx.tier == 'thorough' and ctx.shard == 0:
+        from vf import repo_tests
+        repo_tests.run_under_monitors(ctx, ['rd'], 'C16')
 
 
 def floors(agg, tier):
